@@ -72,7 +72,10 @@ WF(S, socks) == Len(S) > 0 /\ S[1].kind = "type" /\ S[1].params = <<>>
 ParenOf(x) == IF IsTypeNode(x) THEN [alts |-> <<[k |-> "paren", t |-> x]>>]
               ELSE IF IsEntryNode(x) THEN [k |-> "sub", lo |-> 1, hi |-> 1, g |-> [galts |-> << <<x>> >>]]
               ELSE [k |-> "paren", t |-> [alts |-> <<x>>]]
-Eligible(x) == IsTypeNode(x) \/ IsEntryNode(x) \/ IsType1Node(x)
+\* '~name' as the type of an array / map entry is a group expression (its target's group is spliced in): as a TYPE it may be
+\* neither parenthesised nor named - the entry as a whole (a group) may
+UnwrapLike(x) == (IsType1Node(x) /\ x.k = "unwrap") \/ (IsTypeNode(x) /\ Len(x.alts) = 1 /\ x.alts[1].k = "unwrap")
+Eligible(x) == (IsTypeNode(x) \/ IsEntryNode(x) \/ IsType1Node(x)) /\ ~UnwrapLike(x)
 StepParen(a, S, S2) == LET x == Get(S, a.path) IN Eligible(x) /\ S2 = Put(S, a.path, ParenOf(x))
 
 \* ---- Extract: the node must not mention a generic parameter of the enclosing rule
